@@ -99,5 +99,5 @@ def run(rep, tier):
                        'compute exactly the base function, panics included. (b) Every integer-operand base impl (9 types, both positions) of +, -, *, /, %, their checked variants, '
                        'div_rounded, ==, partial_cmp is interpreted per scale cell and compared with the oracle of the Decimal x Decimal form applied to (i, 0): same value term, '
                        'same scale for + and -, same failure class; the one documented exception (only the Decimal form short-cuts an operand equal to one in *) is part of the oracle.')
-    rep.assume('modulo the summaries R (C05) and W (C16, contract U) for the rounded results')
+    rep.assume('modulo the summaries R (C05) and W (C16, kernels included) for the rounded results')
     rep.trust('rustc nightly MIR; absint transfer functions and callee models')
